@@ -378,7 +378,32 @@ def _stmt_start(m, pos, lo):
     return skip_ws(m, k + 1), m[k] if k >= 0 else "{"
 
 
+def _block_stmt_end(m, start):
+    """end (exclusive) of a block-like statement (`if..else..`, `match`, `for`, `while`, `loop`) starting at start"""
+    mt = re.match(r"(?:'\w+\s*:\s*)?(if|match|for|while|loop)\b", m[start:])
+    if not mt:
+        return None
+    k = start + mt.end()
+    while True:
+        bo = _cond_end(m, k)
+        bc = match_close(m, bo)
+        nx = skip_ws(m, bc + 1)
+        if mt.group(1) == "if" and m.startswith("else", nx) and not (m[nx + 4].isalnum() or m[nx + 4] == "_"):
+            k = nx + 4
+            k2 = skip_ws(m, k)
+            if m.startswith("if", k2) and not (m[k2 + 2].isalnum() or m[k2 + 2] == "_"):
+                k = k2 + 2
+            continue
+        return bc + 1
+
+
 def _stmt_end(m, pos, hi):
+    ss, _ = _stmt_start(m, pos, 0)
+    be = _block_stmt_end(m, ss)
+    if be is not None and be > pos:
+        nx = skip_ws(m, be)
+        if m[nx] not in ".?;":
+            return be
     k = pos
     while k < hi:
         c = m[k]
